@@ -42,22 +42,22 @@ fn main() {
         (
             Spec { cap: 2, keyseed: 11, warm: 1, wprog: vec![WOp::Add { dir: 1, par: 0 }, WOp::Rm(0)],
                    rprogs: vec![vec![ROp::Setup { seal: true, x: 0 }, seal(0), seal(0), seal(0), ROp::Ex(0)]] },
-            d(10, 12),
+            d(10, 14),
         ),
         // remove_all racing opens on a cached key
         (
             Spec { cap: 2, keyseed: 12, warm: 1, wprog: vec![WOp::Add { dir: 2, par: 1 }, WOp::RmAll],
                    rprogs: vec![vec![ROp::Setup { seal: false, x: 0 }, ROp::Open { kth: 0, fail: false }, ROp::Open { kth: 0, fail: false }, ROp::Open { kth: 0, fail: false }]] },
-            d(9, 11),
+            d(9, 13),
         ),
         // remove_if racing two readers, one on the removed and one on the surviving channel
         (
             Spec { cap: 3, keyseed: 13, warm: 2, wprog: vec![WOp::Add { dir: 1, par: 0 }, WOp::Add { dir: 1, par: 1 }, WOp::RmIf(Pred::Par(0))],
                    rprogs: vec![vec![ROp::Setup { seal: true, x: 0 }, seal(0), seal(0)], vec![ROp::Setup { seal: true, x: 1 }, seal(0), seal(0)]] },
-            d(6, 7),
+            d(6, 8),
         ),
     ];
-    sw::drive(&mut rec, PROP, 1, &fixed, args.seed, args.budget(250, 2500), 10);
-    sw::drive_mem(&mut rec, PROP, args.seed, args.budget(300, 3000));
+    sw::drive(&mut rec, PROP, 1, &fixed, args.seed, args.budget(250, 8000), 10);
+    sw::drive_mem(&mut rec, PROP, args.seed, args.budget(300, 8000));
     rec.finish(args.seed, &args.tier);
 }
